@@ -241,6 +241,15 @@ func paramRoot(v ssa.Value, depth int) *ssa.Parameter {
 		if l, ok := x.Tuple.(*ssa.Lookup); ok {
 			return paramRoot(l.X, depth+1)
 		}
+		if ta, ok := x.Tuple.(*ssa.TypeAssert); ok {
+			return paramRoot(ta.X, depth+1)
+		}
+	case *ssa.TypeAssert:
+		return paramRoot(x.X, depth+1)
+	case *ssa.MakeInterface:
+		return paramRoot(x.X, depth+1)
+	case *ssa.ChangeType:
+		return paramRoot(x.X, depth+1)
 	case *ssa.Range:
 		return paramRoot(x.X, depth+1)
 	case *ssa.Alloc:
